@@ -10,7 +10,7 @@ from ..terms import show_atom
 
 ID = 'C12'
 LEVEL = 'model_checking'
-RULE = ('(every payload also at the start, the end and in the middle of a long multi-line text; three neighbouring long texts that cooperate: the first ends and the last starts with 1..3 quote characters of either kind, the middle one is code) ' 'every string of length <= 3 [quick: length 3 only in 5 of the 17 positions] over the 18 characters {a Z 0 _ space \' " LF CR # % ( ) , . : é 五} '
+RULE = ('(payloads also with ASCII punctuation replaced by the compatibility forms U+FF01..U+FF5E) ' '(every payload also at the start, the end and in the middle of a long multi-line text; three neighbouring long texts that cooperate: the first ends and the last starts with 1..3 quote characters of either kind, the middle one is code) ' 'every string of length <= 3 [quick: length 3 only in 5 of the 17 positions] over the 18 characters {a Z 0 _ space \' " LF CR # % ( ) , . : é 五} '
         'plus 30 payloads (Python expressions, statements after a newline, engine/API names, dunder names, each carrying '
         'a unique marker) as a quoted atom in EVERY syntactic position (clause-head name - also in a parenthesised or operator head -, body-goal name, head argument, '
         'goal argument, functor name, list element, directive argument, both sides of =), and 288 generated break-out attempts (quote of either kind + code + closers + comment tail, with and without the other kind of quote), and every hostile identifier as '
@@ -54,6 +54,14 @@ BREAKOUTS = _breakouts()
 # codec they themselves name (a coding declaration works from inside a comment on line 1 or 2)
 BREAKOUTS += ['coding:utf_7 a+ACc-,zq7)): #', 'coding=utf-7 a+ACc-))), zq7 #', '-*- coding: utf_7 -*- +ACcAKQApACk-: zq7 #',
               'coding:utf_16 a', 'coding:rot13 n', 'coding:unicode_escape a\\x27,zq7)): #', 'coding:raw_unicode_escape a\\u0027,zq7)): #']
+# ... and every payload with its ASCII punctuation replaced by the compatibility (full-width) forms U+FF01..U+FF5E,
+# which a Unicode normalisation somewhere on the way would turn back into quotes, brackets and backslashes
+def _fullwidth(s):
+    return ''.join(chr(ord(c) + 0xFEE0) if ('!' <= c <= '~' and not c.isalnum()) else c for c in s)
+
+
+BREAKOUTS += [w for w in (_fullwidth(x) for x in _breakouts()[::3]) if w not in BREAKOUTS]
+BREAKOUTS += ["\uff07+atom(\uff07zq7\uff07).name()+\uff07", "a\uff07,zq7)): #", "a\uff3c", "a\ufe68\uff07,zq7", "\uff02+zq7+\uff02", "zq7\uff07\uff09\uff09: #"]
 INTERNAL_NAMES = ['$CUTIF', '$cutif', '$CUT', '$BREAK', '$VAR', 'cutIf1', 'doBreak', '$CUTIF_1', '$IF', '$label']
 def names_in_compiler_source():
     """every short string literal in the source of the compiler modules: if the compiler recognises
